@@ -16,6 +16,9 @@ def extractor(facts, rep):
     rep.guarded("substate", C07.FN + "csi_dispatch", lambda: C07.rule_substate(facts, rep))
     rep.guarded("emit", C07.FN + "csi_dispatch", lambda: C07.rule_emit(facts, rep))
     rep.guarded("model", C07.FN + "csi_dispatch", lambda: C07.rule_model(facts, rep))
+    # the driver loop: every input byte goes through the parser, the pending text comes from its callbacks only
+    from rules import C03
+    rep.guarded("byte-at-a-time", "anstream::adapter::wincon::next_bytes", lambda: C03.rule_byte_at_a_time(facts, rep))
 
 
 def palette_tables(facts, rep):
